@@ -66,6 +66,11 @@ type spec struct {
 	Frag    *fragSpec    // translate a run of statements of the function as a function of its own
 	Name    string       // Lean name (default: the Go name, Recv_Func for methods)
 	Uses    []useSpec    // functions of other generated modules it calls
+	Opaque  []string     // "GoType=LeanName": types whose values are only passed on; each is a Lean type parameter
+	Methods []string     // "LeanName.Method=[mut ]func(..) R": abstract methods of opaque types (mut: returns (R, new value))
+	FloatAbs string      // float32 is this Lean type parameter with a decidable `<` (only < and > are translated)
+	FloatLE  bool        // … and a decidable `≤` (<= and >= are translated too)
+	CapVars  []string    // "v=c": cap(v) of the slice variable v is the int variable c; `v = append(v, ..)` updates c
 }
 
 // a fragment: the consecutive statements of one block from the one whose text starts with First to
@@ -74,6 +79,9 @@ type fragSpec struct {
 	First, Last string
 	Params      []string // "name type" in Go syntax
 	Results     []string // names of parameters / variables returned, in order
+	EarlyReturn string   // text of the return statements inside the fragment that mean "the fragment ends here"
+	Case        string   // instead of First/Last: the whole body of the case clause with this label text
+	ErrLast     bool     // the fragment can fail: a `return .., err` inside (err not nil) is its error result
 }
 
 var specs = []spec{
@@ -113,6 +121,53 @@ var specs = []spec{
 		Consts: []constSpec{{File: "shard/shard.go", Name: "POINTCOUNTKEY", As: "POINTCOUNTKEY"}},
 		Uses: []useSpec{{Go: "conversion.BytesToUint64", Lean: "Gen.Conversion.BytesToUint64", Sig: "func([]byte) uint64", Module: "Conversion"},
 			{Go: "conversion.Uint64ToBytes", Lean: "Gen.Conversion.Uint64ToBytes", Sig: "func(uint64) []byte", Module: "Conversion"}}},
+	// second round (notes/T1ext.md, section 7)
+	{File: "shard/index/utils.go", Func: "getOperation", Module: "IndexOp", Ext: true, Opaque: []string{"*msgpack.Decoder=Decoder"},
+		Prims: []string{"fmtAny", "getPropertyFromBytes=func(dec *msgpack.Decoder, data []byte, property string) (any, error)"},
+		Consts: []constSpec{{File: "shard/index/utils.go", Name: "opInsert", As: "opInsert"}, {File: "shard/index/utils.go", Name: "opUpdate", As: "opUpdate"},
+			{File: "shard/index/utils.go", Name: "opDelete", As: "opDelete"}, {File: "shard/index/utils.go", Name: "opSkip", As: "opSkip"}}},
+	distSetSpec("Len"), distSetSpec("AddWithLimit"), distSetSpec("Add"), distSetSpec("AddAlreadyUnique"), distSetSpec("Sort"),
+	flatStepSpec,
+	invArm("gt", "models.OperatorGreaterThan"), invArm("ge", "models.OperatorGreaterOrEq"), invArm("lt", "models.OperatorLessThan"),
+	invArm("le", "models.OperatorLessOrEq"), invArm("inRange", "models.OperatorInRange"),
+	// C18: a parameter struct whose Validate is integer range checks only
+	{File: "models/quantizer.go", Func: "Validate", Recv: "ProductQuantizerParameters", Module: "Validate", Ext: true,
+		Structs: []structSpec{{File: "models/quantizer.go", Name: "ProductQuantizerParameters"}}},
+}
+
+// the body of the ForEach callback of flat.IndexFlat.Search after the filter test: the bounded insertion of
+// one point into `res` (cap(res) is the variable res_cap; HybridScore, float arithmetic, is not modelled)
+var flatStepSpec = spec{File: "shard/index/flat/flat.go", Func: "Search", Recv: "IndexFlat", Module: "FlatSearch", Ext: true, Name: "Search_step",
+	FloatAbs: "D", FloatLE: true, CapVars: []string{"res=res_cap"}, Prims: []string{"growCap"},
+	Opaque:  []string{"vectorstore.VectorStorePoint=VPoint", "VectorStorePoint=VPoint"},
+	Methods: []string{"VPoint.Id=func() uint64"},
+	Structs: []structSpec{{File: "shard/vectorstore/vectorstore.go", Name: "PointIdDistFn"},
+		{File: "models/search.go", Name: "SearchResult", Only: []string{"NodeId", "Distance"}, Drop: []string{"HybridScore"}}},
+	Frag: &fragSpec{First: "dist := distFn(point)", Last: "for i := len(res) - 1;", EarlyReturn: "return nil",
+		Params:  []string{"distFn vectorstore.PointIdDistFn", "point vectorstore.VectorStorePoint", "res []models.SearchResult", "res_cap int"},
+		Results: []string{"res", "res_cap"}}}
+
+
+// one arm of the operator switch of inverted.IndexInverted[T].Search: what it does to start / end / inclusive
+// (the generic value type T is opaque; toByteSortable and the %v text of a T are abstract)
+func invArm(name, label string) spec {
+	return spec{File: "shard/index/inverted/inverted.go", Func: "Search", Recv: "IndexInverted", Module: "InvertedSearch", Ext: true, Name: "Search_" + name,
+		Opaque: []string{"T=T"}, Prims: []string{"toByteSortable=func(v T) ([]byte, error)", "fmt_T=func(v T) string"},
+		Frag: &fragSpec{Case: label, ErrLast: true,
+			Params:  []string{"queryKey []byte", "endQuery T", "start []byte", "end []byte", "inclusive bool"},
+			Results: []string{"start", "end", "inclusive"}}}
+}
+
+// vamana.DistSet: the point (an interface with Id()) and the visited set (an interface with the mutating
+// CheckAndVisit) are opaque, float32 distances are an abstract type with `<`, cap(ds.items) is a ghost field
+func distSetSpec(fn string) spec {
+	return spec{File: "shard/index/vamana/distset.go", Func: fn, Recv: "DistSet", Module: "DistSet", Ext: true, FloatAbs: "D",
+		Opaque:  []string{"vectorstore.VectorStorePoint=VPoint", "VectorStorePoint=VPoint", "visitedSet=VSet"},
+		Methods: []string{"VPoint.Id=func() uint64", "VSet.CheckAndVisit=mut func(uint64) bool"},
+		Prims:   []string{"growCap"},
+		Structs: []structSpec{{File: "shard/vectorstore/vectorstore.go", Name: "PointIdDistFn"},
+			{File: "shard/index/vamana/distset.go", Name: "DistSetElem"},
+			{File: "shard/index/vamana/distset.go", Name: "DistSet", Caps: []string{"items"}}}}
 }
 
 // the paging at the end of Shard.SearchPoints
@@ -1192,6 +1247,9 @@ func findFunc(f *ast.File, sp spec) *ast.FuncDecl {
 			if st, ok := rt.(*ast.StarExpr); ok {
 				rt = st.X
 			}
+			if ix, ok := rt.(*ast.IndexExpr); ok { // receiver of a generic type: T[P]
+				rt = ix.X
+			}
 			if id, ok := rt.(*ast.Ident); ok && id.Name == sp.Recv {
 				return fd
 			}
@@ -1335,6 +1393,7 @@ func main() {
 	mods := map[string][]genFunc{}
 	extMods := map[string]bool{}
 	failedMods := map[string]bool{}
+	seenMod := map[string]bool{}
 	knownFuncs := map[string]map[string]*xty{}
 	var order []string
 	for _, sp := range specs {
@@ -1348,9 +1407,10 @@ func main() {
 			}
 			files[sp.File] = f
 		}
-		if _, ok := mods[sp.Module]; !ok {
+		if _, ok := mods[sp.Module]; !ok && !seenMod[sp.Module] {
 			order = append(order, sp.Module)
 		}
+		seenMod[sp.Module] = true
 		var gs []genFunc
 		func() {
 			defer func() {
